@@ -1,11 +1,11 @@
 """C07 — polynomial integration: indefinite = [0, c0, c1/2, ...]; integral passes through the knot."""
 from fractions import Fraction
 from .common import *
-from ..terms import NF, sym, term_str
+from ..terms import sel_conditions, split_cases, NF, sym, term_str
 from ..ratfun import RF
 from ..values import Struct, Arr, Opaque
 from ..facts import adt, param
-from .rounding import count_rounded_ops
+from .rounding import count_rounded_ops, spurious_overflow
 
 HI = 'poly::HasIntegral'
 LEVEL = 'proof'
@@ -75,6 +75,10 @@ def check(cx):
                        'lane %d = %s (%d rounded op)' % (i, nf.show(got), nops), fn=inst, file=file, line=line,
                        msg='indefinite() coefficient %d is %s, expected %s with at most one rounding' %
                        (i, term_str(l)[:200], nf.show(want)))
+                so = spurious_overflow(l, nf)
+                rep.ob('range', '%s:lane%d' % (inst, i), not so, 'no intermediate exceeds the coefficient in magnitude', fn=inst, file=file, line=line,
+                       msg='indefinite() coefficient %d: intermediate %s is %s times the result, so it overflows for finite coefficients '
+                       'whose quotient is representable' % (i, term_str(so[0][0])[:120] if so else '', so[0][1] if so else ''))
             # fundamental theorem: d/dx F = p
             x = sym('x')
             F = poly_value(nf, lanes, nf(x))
@@ -100,9 +104,28 @@ def check(cx):
                 return
             kx, ky = sym('knot.x'), sym('knot.y')
             val = poly_value(nf, lanes, nf(kx))
-            rep.ob('knot', inst2, val.equals(nf(ky)), 'F(knot.x) − knot.y = ' + nf.show(val - nf(ky)),
+            okk = val.equals(nf(ky))
+            shown = nf.show(val - nf(ky))
+            if not okk and sel_conditions(lanes):
+                # the constant is computed with data-dependent shortcuts: decide the identity case by case
+                ncase = 0
+                okk = True
+                for asm, ls in split_cases(lanes):
+                    ncase += 1
+                    n3 = NF(asm)
+                    v3 = poly_value(n3, ls, n3(kx))
+                    if not v3.equals(n3(ky)):
+                        okk = False
+                        shown = '%s in the case %s' % (n3.show(v3 - n3(ky))[:200],
+                                                       ', '.join('%s%s' % ('' if b else '¬', term_str(c)) for c, b in [(c, b) for c, b in asm.items() if not (c[0] == 'fcmp' and c[2][0] == 'fc' and c[3][0] == 'fc')][:6])[:300])
+                        break
+                if ncase == 0:
+                    okk = False
+                elif okk:
+                    shown = '0 in each of %d cases' % ncase
+            rep.ob('knot', inst2, okk, 'F(knot.x) − knot.y = ' + shown,
                    fn=inst2, file=file2, line=line2,
-                   msg='integral(knot) does not pass through the knot: F(knot.x) − knot.y = ' + nf.show(val - nf(ky)))
+                   msg='integral(knot) does not pass through the knot: F(knot.x) − knot.y = ' + shown)
             # integral differs from indefinite in the constant only
             if a_ind is not None:
                 il = lanes_of(a_ind.ret)
@@ -151,6 +174,7 @@ def check(cx):
                 guarded(rep, 'roundtrip', inst3, f_der, go_rt)
 
     rep.floor('coef', 8 + sum(d + 2 for d in range(8)) - 8)
+    rep.floor('range', 8 + sum(d + 2 for d in range(8)) - 8)
     rep.floor('knot', 8)
     rep.floor('ftc', 16)
     rep.floor('roundtrip', 8)
